@@ -11,7 +11,8 @@ CHECKS = {
          "capacity, the cache never exceeds capacity, lookups return the latest stored value until evicted, the "
          "victim is the least recently used clean entry, dirty entries are never evicted and insertion is refused "
          "iff the cache is full of dirty entries; the model is tied to storage.LRUCache by step-by-step "
-         "differential runs (exhaustive depth-3 small scope + random long runs) evaluated inside Coq, and the Go "
+         "differential runs (exhaustive depth-3 small scope + random long runs + long runs at capacities 300..10000 "
+         "with hundreds to thousands of dirty entries at the cold end) evaluated inside Coq, and the Go "
          "traces are independently judged by a property oracle (Spec/LruSpec.v).",
     note="Trusted: Coq kernel + vm_compute; hand-written model Model/Lru.v (tie = correspondence, a sample); Go "
          "overlay driver; container/list and map semantics. No axioms.",
@@ -329,7 +330,7 @@ def main():
         "notes": "See DESIGN.md (sections 1-10: plan; 11: what was built, defects repaired, seeded changes, final status per "
                  "property, trusted base). 35 'fix:' commits in /repo (each a genuine defect shown against the real code; the unedited "
                  "suite passes), listed in known_findings.json 'fixed'; two findings recorded and not repaired (C04 structural torn "
-                 "flush, C07 running rounded AVG pinned by the existing tests). 70 seeded changes under seeded/ (six rounds, written "
+                 "flush, C07 running rounded AVG pinned by the existing tests). 80 seeded changes under seeded/ (seven rounds, written "
                  "by sub-agents that saw only the property text), each confirmed in a scratch worktree and detected by the quick check "
                  "of its property; tools/reseed.py re-runs round one against the current HEAD. Thorough tier: larger scopes, coqchk on "
                  "the property's files, Go statement coverage of the correspondence runs.",
